@@ -212,15 +212,13 @@ func init() {
 		orch(pkgRC, "VerifFullTimeoutThenOK", 2, "FULL stack: an invocation following a timed-out one (deadline, body, outcome)", "timeout", "respond", "scenario-done"),
 	}
 	c01 = append(c01, frontEnd()...)
-	{
-		// the size boundary itself (a response of exactly the limit is returned unchanged) needs the
-		// cvc5 portfolio: it is the first harness of the list
-		b := orch(pkgRC, "VerifC14Oversize", 0, "FULL stack with symbolic multi-megabyte lengths: a response of at most the limit (the limit included) is delivered intact, a longer one is replaced by the size error, the environment keeps serving", "scenario-done")
-		b.solver, b.altSolver = "cvc5", true
-		c01 = append([]*harnessSpec{b}, c01...)
-		c01 = append(c01, orch(pkgRC, "VerifC05SlowStateGetter", 1, "exactly one outcome, and its own: a late completion report of the previous (timed-out) invocation is not taken for the outcome of the next one", "late-done", "done"))
-	}
-	c01t := append(withD(c01, 2, 3000000), orch(pkgRC, "VerifFullAny2", 2, "FULL stack: any of 7 runtime behaviours for each of 2 invocations", "scenario-done"), twoCallers)
+	c01 = append(c01, orch(pkgRC, "VerifC05SlowStateGetter", 1, "exactly one outcome, and its own: a late completion report of the previous (timed-out) invocation is not taken for the outcome of the next one", "late-done", "done"))
+	// the size boundary itself (a response of exactly the limit is returned unchanged) needs the
+	// cvc5 portfolio and multi-megabyte length reasoning, which is sensitive to machine load: it is
+	// part of C14's quick tier and of C01's THOROUGH tier only
+	c01size := orch(pkgRC, "VerifC14Oversize", 0, "FULL stack with symbolic multi-megabyte lengths: a response of at most the limit (the limit included) is delivered intact, a longer one is replaced by the size error, the environment keeps serving", "scenario-done")
+	c01size.solver, c01size.altSolver = "cvc5", true
+	c01t := append(withD(c01, 2, 3000000), orch(pkgRC, "VerifFullAny2", 2, "FULL stack: any of 7 runtime behaviours for each of 2 invocations", "scenario-done"), twoCallers, c01size)
 	checkRegistry = append(checkRegistry, &checkSpec{id: "C01", level: "other", quick: c01, thorough: c01t, assume: orchAssume, outside: append(orchOutside, "InitHandler / main.go of cmd/aws-lambda-rie (environment forwarding, HTTP server)")})
 
 	c02 := []*harnessSpec{
